@@ -20,7 +20,11 @@ def behaviours(ctx, nleaves, maxops, label, simulate, seed):
     r = tlc.run(ctx.workdir, 'TreeOps', CFG % (nleaves, maxops, 'TRUE', 'TRUE', 'TRUE'), workers=1, label=label, coverage=False,
                 simulate='num=%d' % simulate, depth=maxops + 2, seed=seed, timeout=900)
     ctx.add_tlc(r, 'TreeOps simulate %d behaviours (%d leaves, %d ops)' % (simulate, nleaves, maxops))
-    return r.printed
+    out = r.printed
+    if len(out) > simulate:
+        import random
+        out = random.Random(seed).sample(out, simulate)   # the simulator also evaluates the invariant on unchosen successors
+    return out
 
 
 def apply_real(beh, nleaves):
